@@ -251,36 +251,27 @@ class OctetStringEncoder(AbstractItemEncoder):
         if asn1Spec is None:
             baseTag = value.tagSet.baseTag
 
-            # strip off explicit tags
-            if baseTag:
-                tagSet = tag.TagSet(baseTag, baseTag)
-
-            else:
-                tagSet = tag.TagSet()
-
-            asn1Spec = value.clone(tagSet=tagSet)
-
-        elif not isOctetsType(value):
+        else:
             baseTag = asn1Spec.tagSet.baseTag
 
-            # strip off explicit tags
-            if baseTag:
-                tagSet = tag.TagSet(baseTag, baseTag)
+        if baseTag:
+            tagSet = tag.TagSet(baseTag, baseTag)
 
-            else:
-                tagSet = tag.TagSet()
+        else:
+            tagSet = tag.TagSet()
 
-            asn1Spec = asn1Spec.clone(tagSet=tagSet)
+        # inner chunks carry octets (not characters) whatever the
+        # string type is, so they are sliced and encoded as octet strings
+        asn1Spec = univ.OctetString(tagSet=tagSet)
+
+        octets = substrate
 
         pos = 0
         substrate = null
 
-        while True:
-            chunk = value[pos:pos + maxChunkSize]
-            if not chunk:
-                break
-
-            substrate += encodeFun(chunk, asn1Spec, **options)
+        while pos < len(octets):
+            substrate += encodeFun(
+                octets[pos:pos + maxChunkSize], asn1Spec, **options)
             pos += maxChunkSize
 
         return substrate, True, True
